@@ -76,6 +76,24 @@ def gen_ms(rng, max_events=8, shuffle=None):
             if others:
                 events.append((t, ["-ej", fmt(t), str(i), str(rng.choice(others))]))
                 joined.add(i)
+    # a rate that is switched off and later back to exactly its earlier value (same matrix entry)
+    if npop > 1 and rng.random() < 0.35:
+        ts = sorted(rng.sample([0.02, 0.04, 0.07, 0.3, 0.6, 0.9], 2))
+        x = rng.choice([0.5, 2.0, 3.0])
+        if rng.random() < 0.6:
+            i, j = rng.sample(range(1, npop + 1), 2)
+            pre = ["-m", str(i), str(j), fmt(x)] if rng.random() < 0.5 else None
+            if pre:
+                args += pre
+            else:
+                events.append((0.0, ["-em", fmt(0.005), str(i), str(j), fmt(x)]))
+            events.append((ts[0], ["-em", fmt(ts[0]), str(i), str(j), fmt(0.0)]))
+            events.append((ts[1], ["-em", fmt(ts[1]), str(i), str(j), fmt(x)]))
+        else:
+            events.append((0.0, ["-eM", fmt(0.005), fmt(x)]))
+            events.append((ts[0], ["-eM", fmt(ts[0]), fmt(0.0)]))
+            events.append((ts[1], ["-eM", fmt(ts[1]), fmt(x)]))
+        events.sort(key=lambda e: e[0])
     if shuffle is None:
         shuffle = rng.random() < 0.3
     ev = [e for _, e in events]
